@@ -48,6 +48,8 @@ def swarm(rng: random.Random, prop: str, tier: str) -> dict:
         if w[k] > 0:
             w[k] *= rng.choice([0, 0.5, 1, 1, 1, 2]) if k not in p.get("w", {}) else rng.choice([0.5, 1, 1, 2])
     lo, hi = p["steps"]
+    if prop in ("C03", "C11"):
+        w["all_pairs"] = 0.05
     if tier == "thorough":
         hi = int(hi * 2)
         if prop in ("C03", "C11"):
